@@ -872,6 +872,10 @@ func luaModulo(lhs, rhs LNumber) LNumber {
 	if frhs > 0 && v < 0 || frhs < 0 && v > 0 {
 		v += frhs
 	}
+	if v == 0 {
+		// a - floor(a/b)*b is never -0; math.Mod hands on the sign of a negative dividend
+		v = 0
+	}
 	return LNumber(v)
 }
 
